@@ -38,9 +38,9 @@ theorem J_init (w : World) : J (init w) := by
 
 /-- generic pointwise preservation: if a step only rewrites task `f` to `t'`, a pointwise
     predicate holds afterwards when it holds for `t'` at `f` -/
-theorem pointwise_set (P : File → Task → Prop) (s : St) (f : File) (t' : Task) (sem' : Nat)
+theorem pointwise_set (P : File → Task → Prop) (s : St) (f : File) (t' : Task) (sem' c' : Nat)
     (hP : ∀ g t, s.task g = some t → P g t) (hnew : P f t') :
-    ∀ g t, (({ s with sem := sem' } : St).set f t').task g = some t → P g t := by
+    ∀ g t, (({ s with sem := sem', clock := c' } : St).set f t').task g = some t → P g t := by
   intro g t h
   by_cases hg : g = f
   · subst hg; rw [set_task_same] at h; cases h; exact hnew
@@ -62,7 +62,7 @@ theorem J_step (w : World) (s s' : St) (e : Ev) (hJ : J s) (h : step w s e = som
   all_goals (try (simp at h))
   all_goals (try (obtain ⟨h1, h2⟩ := h))
   all_goals (try subst s')
-  all_goals (try (apply pointwise_set (fun _ t => noPermitPc t.pc = true → t.holds = false) _ _ _ _ hJ))
+  all_goals (try (apply pointwise_set (fun _ t => noPermitPc t.pc = true → t.holds = false) _ _ _ _ _ hJ))
   all_goals (try simp [noPermitPc])
   · next f d _ t hf _ i hpc _ _ _ _ _ _ => exact hJ f t hf (by simp [hpc, noPermitPc])
   · next f _ t hf hc =>
@@ -79,19 +79,19 @@ theorem J_reachable (w : World) (s : St) (h : Reachable w s) : J s := by
     tasks equal the configured parallelism. -/
 def Permits (w : World) (s : St) : Prop := s.sem + holders s = w.par
 
-theorem holders_set_eq (s : St) (f : File) (t t' : Task) (sem' : Nat) (hf : s.task f = some t) :
-    holders (({ s with sem := sem' } : St).set f t') + (if t.holds then 1 else 0)
+theorem holders_set_eq (s : St) (f : File) (t t' : Task) (sem' c' : Nat) (hf : s.task f = some t) :
+    holders (({ s with sem := sem', clock := c' } : St).set f t') + (if t.holds then 1 else 0)
       = holders s + (if t'.holds then 1 else 0) := by
-  have := holders_set ({ s with sem := sem' } : St) f t'
-  have hf' : ({ s with sem := sem' } : St).task f = some t := hf
+  have := holders_set ({ s with sem := sem', clock := c' } : St) f t'
+  have hf' : ({ s with sem := sem', clock := c' } : St).task f = some t := hf
   rw [hf'] at this
   simpa [holdsOpt, holders] using this
 
-theorem permits_set (s : St) (f : File) (t t' : Task) (sem' par : Nat) (hf : s.task f = some t)
+theorem permits_set (s : St) (f : File) (t t' : Task) (sem' c' par : Nat) (hf : s.task f = some t)
     (hacc : sem' + (if t'.holds then 1 else 0) = s.sem + (if t.holds then 1 else 0))
     (hP : s.sem + holders s = par) :
-    sem' + holders (St.set { sem := sem', tasks := s.tasks, crashed := s.crashed } f t') = par := by
-  have := holders_set_eq s f t t' sem' hf
+    sem' + holders (St.set { sem := sem', tasks := s.tasks, crashed := s.crashed, clock := c' } f t') = par := by
+  have := holders_set_eq s f t t' sem' c' hf
   omega
 
 theorem permits_same (s : St) (f : File) (t t' : Task) (par : Nat) (hf : s.task f = some t)
@@ -122,7 +122,7 @@ theorem Permits_step (w : World) (s s' : St) (e : Ev) (hJ : J s) (hP : Permits w
   all_goals (try (exact permits_same s _ _ _ _ (by assumption) rfl hP))
   all_goals (try (exact permits_spawn s _ _ _ (by assumption) rfl hP))
   all_goals (try (exact hP))
-  all_goals (try (refine permits_set s _ _ _ _ _ (by assumption) ?_ hP))
+  all_goals (try (refine permits_set s _ _ _ _ _ _ (by assumption) ?_ hP))
   all_goals (try (simp; done))
   all_goals (try (simp_all; done))
   all_goals (
@@ -168,7 +168,7 @@ theorem R_step (w : World) (s s' : St) (e : Ev) (hR : R s) (h : step w s e = som
   all_goals (try (obtain ⟨h1, h2⟩ := h))
   all_goals (try subst s')
   all_goals (try (refine ⟨by simpa using hc, ?_⟩))
-  all_goals (try (apply pointwise_set (fun _ t => t.recovered = false) _ _ _ _ hR))
+  all_goals (try (apply pointwise_set (fun _ t => t.recovered = false) _ _ _ _ _ hR))
   all_goals (try (simp; done))
   all_goals (try (dsimp only))
   all_goals (try (exact hR _ _ (by assumption)))
